@@ -5,6 +5,13 @@
 //	ds.deliver <module> <hex payload | ->       => ok|err <rules>   (through a datasource.Base with the module's handler registered,
 //	                                               the payload copied into ONE long-lived buffer per case, as a datasource with a reused
 //	                                               read buffer does: buf = append(buf[:0], payload...); base.Handle(buf))
+//	ds.custom <conv> <upd>                      => ok|err|escaped applied=<v|none> upd=<n>
+//	                                               one delivery on a per-case handler built with datasource.NewDefaultPropertyHandler(conv, updater)
+//	                                               whose converter and updater are scripted for this delivery:
+//	                                               conv ∈ nil | ok:<k> | err | panic:err | panic:str | panic:deref   (what the converter does)
+//	                                               upd  ∈ ok | err | panic:err | panic:str | panic:deref            (what the updater does if called)
+//	                                               `escaped` = a panic came out of Handle; applied = the value the updater last applied,
+//	                                               upd = how often the updater has been called
 //	rules <module>                              => <GetRules, canonical>
 //	tags <module>                               => GoField:kind:jsonname[,omitempty];…   (reflection on the wire type)
 //	file.new <module> <hex | none>              => ok|err <rules>      (real temp file + fsnotify; thorough tier)
@@ -54,6 +61,14 @@ type Interp struct {
 	handlers map[string]datasource.PropertyHandler
 	// one Base per module (the same handler object as ds.handle uses) and one delivery buffer per case
 	bases map[string]*datasource.Base
+	// scripted handler (ds.custom)
+	custom    *datasource.DefaultPropertyHandler
+	cConv     string
+	cUpd      string
+	cApplied  string
+	cUpdCalls int
+	// the file datasource object, kept for file.reinit even when the first Initialize failed
+	fdsInit *file.RefreshableFileDataSource
 	buf   []byte
 	// file datasource state
 	dir   string
@@ -190,6 +205,7 @@ func (it *Interp) Reset() {
 	clearAll()
 	it.handlers = map[string]datasource.PropertyHandler{}
 	it.bases = map[string]*datasource.Base{}
+	it.custom, it.cApplied, it.cUpdCalls, it.fdsInit = nil, "none", 0, nil
 	it.buf = make([]byte, 0, 256)
 }
 
@@ -382,8 +398,78 @@ func (it *Interp) settleFor(before int64, need bool, bound time.Duration) {
 	}
 }
 
+// doPanic panics with a value of the requested kind: an error, a string, or a genuine nil-dereference runtime error.
+func doPanic(kind string) {
+	switch kind {
+	case "panic:err":
+		panic(fmt.Errorf("scripted error panic"))
+	case "panic:str":
+		panic("scripted string panic")
+	case "panic:deref":
+		var p *struct{ x int }
+		_ = p.x
+	}
+	panic("bad panic kind " + kind)
+}
+
+func (it *Interp) customHandle() (res string) {
+	if it.custom == nil {
+		conv := func(src []byte) (interface{}, error) {
+			c := it.cConv
+			switch {
+			case c == "nil":
+				return nil, nil
+			case strings.HasPrefix(c, "ok:"):
+				return []int{int(vh.I(c[3:]))}, nil
+			case c == "err":
+				return nil, fmt.Errorf("scripted convert error")
+			}
+			doPanic(c)
+			return nil, nil
+		}
+		upd := func(data interface{}) error {
+			it.cUpdCalls++
+			switch it.cUpd {
+			case "ok":
+				if data == nil {
+					it.cApplied = "nil"
+				} else {
+					it.cApplied = fmt.Sprint(data.([]int)[0])
+				}
+				return nil
+			case "err":
+				return fmt.Errorf("scripted update error")
+			}
+			doPanic(it.cUpd)
+			return nil
+		}
+		it.custom = datasource.NewDefaultPropertyHandler(conv, upd)
+	}
+	defer func() {
+		if r := recover(); r != nil {
+			res = "escaped"
+		}
+	}()
+	if err := it.custom.Handle([]byte("x")); err != nil {
+		return "err"
+	}
+	return "ok"
+}
+
 func (it *Interp) Step(t []string, op string) string {
 	switch t[0] {
+	case "ds.custom":
+		it.cConv, it.cUpd = t[1], t[2]
+		r := it.customHandle()
+		return fmt.Sprintf("%s applied=%s upd=%d", r, it.cApplied, it.cUpdCalls)
+	case "file.reinit":
+		if it.fdsInit == nil {
+			panic("file.reinit without file.new")
+		}
+		if err := it.fdsInit.Initialize(); err != nil {
+			return "err " + rules(it.fmod)
+		}
+		return "ok " + rules(it.fmod)
 	case "ds.handle":
 		err := it.handler(t[1]).Handle(payload(t[2]))
 		if err != nil {
@@ -424,6 +510,7 @@ func (it *Interp) Step(t []string, op string) string {
 		h := newHandler(t[1]).(*datasource.DefaultPropertyHandler)
 		it.gate = newHoldGate()
 		it.fds = file.NewFileDataSource(it.path, counting{h, it.count, it.gate})
+		it.fdsInit = it.fds
 		if err := it.fds.Initialize(); err != nil {
 			// no watcher goroutine exists: Close() would block for ever on the unbuffered closeChan
 			it.fds = nil
